@@ -168,6 +168,7 @@ type errqEntry struct {
 
 // UDPConn stands in for *net.UDPConn.
 type UDPConn struct {
+	TOS    int // traffic class set through IP_TOS / IPV6_TCLASS
 	net    *Net
 	host   *Host
 	fd     int
@@ -767,6 +768,20 @@ func SetsockoptInt(fd, level, opt, value int) error {
 		case unix.SO_TIMESTAMPNS:
 			c.tsNS = value != 0
 		}
+	}
+	// the traffic class is set per address family: the other family's option does not exist
+	// on the socket
+	if level == unix.IPPROTO_IP && opt == unix.IP_TOS {
+		if !c.local.Addr().Is4() && !c.local.Addr().Is4In6() {
+			return unix.ENOPROTOOPT
+		}
+		c.TOS = value
+	}
+	if level == unix.IPPROTO_IPV6 && opt == unix.IPV6_TCLASS {
+		if c.local.Addr().Is4() {
+			return unix.ENOPROTOOPT
+		}
+		c.TOS = value
 	}
 	return nil
 }
